@@ -437,7 +437,8 @@ func (e *Engine) RunWorkload(wl *Workload) {
 	rs.base.Store(l)
 	rs.inflight.Store(nil)
 	if gate != nil {
-		gate.Release()
+		gate.Close() // also lets a rotation through that has not reached the gate yet
+		gate = nil
 		hooks.WaitRotation(s.w, drv.Watchdog)
 	}
 	s.close()
